@@ -41,8 +41,10 @@ def _ops():
         st.tuples(st.just("new"), _c, st.sampled_from(["", "", "x", "l", "c", "s", "d", "lr_skip", "lr", "se"]), _k),
         st.tuples(st.just("new"), _c, st.just(""), _k),
         st.tuples(st.just("iupdctx"), _i, st.integers(0, len(VP) - 1), _k),
-        st.tuples(st.just("iset"), _i, st.integers(0, len(VP) - 1), _k, st.booleans()),
-        st.tuples(st.just("iset"), _i, st.integers(0, len(VP) - 1), _k, st.just(False)),
+        st.tuples(st.just("iset"), _i, st.integers(0, len(VP) - 1), _k, st.booleans(), st.sampled_from(["attr", "attr", "update"])),
+        st.tuples(st.just("iset"), _i, st.integers(0, len(VP) - 1), _k, st.just(False), st.sampled_from(["attr", "update"])),
+        # a callback run by param.trigger assigns another parameter the object that is the class default right now
+        st.tuples(st.just("itrig"), _i, st.sampled_from([0, 3, 7, 10, 11])),
         st.tuples(st.just("cset"), _c, st.integers(0, len(VP) - 1), _k),
         st.tuples(st.just("cset"), _c, st.integers(0, len(VP) - 1), _k),
         st.tuples(st.just("imut"), _i, st.integers(0, len(MUT) - 1), _k),
@@ -72,7 +74,9 @@ def _case(draw):
         # never been touched, then a class-level assignment is made on that middle class, then another leaf is created
         n = draw(st.sampled_from([1, 3, 0, 9]))     # l, sh, x, lr
         ops[0:0] = [["new", 2, "", 0], ["cset", 1, n, draw(_k)], ["new", 2, "", 0]]
-    return {"b_redeclares_x": draw(st.booleans()), "ops": ops}
+    return {"b_redeclares_x": draw(st.booleans()), "ops": ops,
+            # the instances are container-like objects that are empty, hence falsy
+            "falsy": draw(st.sampled_from([False, False, True]))}
 
 
 def strategy(tier):
@@ -129,6 +133,9 @@ def execute(case):
         # assigning the composite assigns its two components, on the object (instance, class or subclass) it is assigned on
         "uv": param.Composite(attribs=["u", "v"]),
     }
+    if case.get("falsy"):
+        ns["__len__"] = lambda self: 0
+        res.label("falsy_instances")
     A = type("A", (param.Parameterized,), ns)
     B = type("B", (A,), {"x": param.Number(default=3)} if case["b_redeclares_x"] else {})
     C = type("C", (B,), {})
@@ -287,7 +294,11 @@ def execute(case):
                 continue      # constants: C14
             v = getattr(rec["obj"], n) if op[4] else newval(n, op[3])
             try:
-                setattr(rec["obj"], n, v)
+                if len(op) > 5 and op[5] == "update":
+                    rec["obj"].param.update(**{n: v})
+                    res.label("iset_via_param_update")
+                else:
+                    setattr(rec["obj"], n, v)
             except ValueError:
                 res.dontcare += 1      # rejected by (possibly instance-level) constraints: C01's business
                 continue
@@ -300,6 +311,25 @@ def execute(case):
                 frame(tag, before, lambda key: key[1] == "pi")
             else:
                 frame(tag, before, lambda key: key == (idx, n))
+        elif kind == "itrig":
+            if not insts:
+                continue
+            idx = op[1] % len(insts)
+            rec = insts[idx]
+            n = VP[op[2]]
+            o = rec["obj"]
+            dflt = cdefault(rec["cls"], n)
+            h = o.param.watch(lambda *e: setattr(o, n, dflt), "pi", onlychanged=False)
+            try:
+                o.param.trigger("pi")
+            finally:
+                o.param.unwatch(h)
+            rec["own"][n] = dflt            # the instance did assign it, although to the object the class holds
+            rec["own"]["pi"] = getattr(o, "pi")   # (trigger re-assigns the current value of what it announces)
+            rec.setdefault("loose", set()).add("pi")
+            rec.get("loose", set()).discard(n)
+            res.label("assignment_by_callback_during_trigger")
+            frame(tag, before, lambda key: key[1] in ("pi", n) and (key[0] == idx or key[1] == "pi"))
         elif kind == "cset":
             K = classes[op[1]]
             n = VP[op[2]]
@@ -309,6 +339,10 @@ def execute(case):
             except ValueError:
                 res.dontcare += 1
                 continue
+            # an ancestor that holds a different Parameter object for n (after the assignment K has its own) sees nothing of it
+            kpar = _static(K, n)
+            shielded = {P.__name__ for P in K.__mro__[1:] if P in classes and _static(P, n) is not kpar}
+            frame(tag, before, lambda key: not (key[1] == n and key[0] in shielded))
             cown[(K, n)] = v
             if n in ("l", "lr"):
                 cmirror[(K, n)] = list(v)
